@@ -81,6 +81,12 @@ def run_tv(res, families, modes, known_roles=(), note="", reject_is_violation=Fa
     for role, names in roles.items():
         text = next((k["text"] for k in known_findings() if k.get("role") == role), role)
         res.known_finding(f"{text} [{len(names)} corpus programs, e.g. {names[0]}]")
+    v_runs = sum(r.get("validation", {}).get("runs", 0) for r in results)
+    v_skip = sum(r.get("validation", {}).get("skipped", 0) for r in results)
+    v_bad = [(r["name"], b) for r in results for b in r.get("validation", {}).get("bad", [])]
+    for name, b in v_bad[:5]:
+        res.inconclusive.append(f"translator validation: {name}: the solver found no difference, yet the real JIT and the reference differ at the concrete "
+                                f"arguments {b['args']} ({b['kind']}): the encoding misrepresents the code - not decided. {b['details'][:300]}")
     if n_unsup:
         # on the pinned tree the encoder supports every corpus program; a program it cannot encode on another tree
         # (an instruction or shape the compiler did not emit before) is not decided, and the check must say so
@@ -97,6 +103,7 @@ def run_tv(res, families, modes, known_roles=(), note="", reject_is_violation=Fa
         "trap_sites_examined": sum(r["trap_sites"] for r in results),
         "solver_s": round(sum(r["solver_s"] for r in results), 1), "compile_and_dump_s": round(t_dump, 1),
         "extractor_build_s": _built.get("secs"), "wall_s": round(time.time() - t0, 1),
+        "translator_validation": {"concrete_runs_real_jit_vs_reference": v_runs, "skipped_undefined_or_trapping": v_skip, "mismatches": len(v_bad)},
         "unsupported_list": unsupported[:30], "bounds": {"loop_iterations_per_loop": k_loop, "inlining_depth": 4, "solver_timeout_ms_per_query": 10000 if res.tier == "quick" else 120000},
         "functions_encoded": "every item the compiler emitted for each program (pkg.main, helpers, ::generated::clone/drop/eq_N), from the CLIF captured by hook H2",
         "note": note,
@@ -120,5 +127,5 @@ def classify(f, prog, name):
 
 
 TRUST_T = ["cranelift's CLIF -> machine code pipeline (exercised concretely by every replay)", "z3 (python bindings 5.1)",
-           "/verif/tv/clif.py opcode table and memory model (validated per run: every reported model is replayed against the real JIT)",
+           "/verif/tv/clif.py opcode table and memory model (validated per run: every reported model is replayed against the real JIT, and every program the solver found nothing on is run for real on 2 concrete argument vectors - boundary values and a seeded mix - and compared with the reference: a difference there means the encoding is wrong and the check exits 2)",
            "/verif/tv/lang.py reference semantics written from docs/source/reference/language_reference.md"]
